@@ -89,7 +89,8 @@ OPERANDS = {"elems", "attrs", "nss", "texts", "kids", "odd", "leaves", "all", "t
 NO_CONFIGS = {
     'quick': [
         ('ops2', dict(MaxItems=2, ItemKinds={"e", "c"}, TextOpts={True}, TailOpts={True}, AttrCounts={1},
-                      DeclOpts={fs({"p"})}, NsArgs={E}, MaxSibs=1, Operands=OPERANDS, MaxSteps=2, **ALLCFG)),
+                      DeclOpts={fs({"p"})}, NsArgs={E}, MaxSibs=1, Operands=OPERANDS - {"all", "top", "last"},
+                      MaxSteps=2, **ALLCFG)),
     ],
     'thorough': [
         ('ops2', dict(MaxItems=2, ItemKinds={"e", "c"}, TextOpts={True}, TailOpts={True}, AttrCounts={1},
